@@ -35,6 +35,9 @@ CHECKS.update({
  "C10": ("exploration","runtime oracle on the wire form of replies: prescribed OPT/ECS echo and scope from the LPM/name-map model, served records checked against the reference resolver for the location the subnet selects",
          "Sends generated queries without EDNS, with EDNS only and with ECS (family 1/2, source lengths around and across the declared subnet lengths, plus cookie/DO/size variation) to real handlers on CDB (combined and per-family prefix sets), RocksDB v1 and v2; the reply is re-read from its wire bytes and must carry OPT/ECS exactly as the query did, the prescribed scope, and the records of the location selected by the subnet, else the resolver.",
          "Trusts the LPM/name-map model and the reference resolver. EDNS version 0, family-sized addresses with zero host bits.","4/C10"),
+ "C11": ("exploration","runtime monitor: per-response invariants over repeated identical queries from 16 goroutines, chi-square goodness-of-fit of selection counts (alarm below p=1e-9), race-detector child run",
+         "For generated weighted address sets (weights incl. 0 and 2^32-1, locations, wildcard owners, NS/MX targets) every response of up to 4e5 repeated queries per configuration is checked for bound, distinctness, soundness, exact count min(max, positive-weight candidates), weight-0 exclusion and NOERROR; selection frequencies for max=1 and for additional-section addresses are tested against w_i/sum(w); the same workload runs under the Go race detector.",
+         "Proportionality is statistical (false alarm < 1e-9 per configuration); the 2^-32 boundary draws of the implementation are tolerated once per configuration and re-run.","4/C11"),
 })
 BUILT = set(CHECKS)
 ALL = [json.loads(l)["id"] for l in open("properties.jsonl")]
